@@ -75,6 +75,8 @@ def load_known():
 
 
 def run_rules(F, rule_ids, cfg="log"):
+    from . import fsmodel as _fsmodel
+    _fsmodel.CURRENT_FACTS = F
     """Run rules on a Facts object. Returns list of instance dicts (+ per-rule notes)."""
     from . import poly as _poly
     from .mir import expand_local_calls as _exp
